@@ -49,7 +49,10 @@ def run(ctx):
     cases, results = p3.execute(ctx, cases, cases_file, result_of)
     rf = ctx.scratch / "c16_results.json"
     rf.write_text(json.dumps(results))
-    bad = p3.judge(ctx, "Preschedule", consts, cases_file, rf, env={"PASS": "judge"})
+    if len(cases) > 5000:
+        bad = p3.judge_chunked(ctx, "Preschedule", consts, cases, results, env={"PASS": "judge"})
+    else:
+        bad = p3.judge(ctx, "Preschedule", consts, cases_file, rf, env={"PASS": "judge"})
     nontrivial = sum(1 for c in cases if c["edges"])
     ctx.coverage.update({
         "evaluations": len(cases), "distinct_nontrivial": nontrivial, "exhaustive": True,
